@@ -7,6 +7,7 @@ CONSTANTS
   IdleAge = 150
   MaxTime = 450
   MaxReq = 4
+  CleanupFirst = TRUE
   EvictRegardless = FALSE
 INVARIANT TypeOK
 INVARIANT CleanupInvisible
